@@ -100,7 +100,7 @@ impl Prop for C17Prop {
         let len = build_stream(&l.segs).stream.len();
         match fe {
             Fe::Push => {
-                l.ops = { let k = rng.below(4); gen::gen_push_ops(rng, len, k) };
+                l.ops = { let k = rng.below(4); let marks = gen::marks_of(&l.segs); gen::gen_push_ops_biased(rng, len, k, &marks) };
                 if buf == BufKind::Vec && rng.chance(1, 3) {
                     // memory pressure: a failed reservation rejects the frame in flight, and the
                     // rejected range must still be accounted for
@@ -116,6 +116,10 @@ impl Prop for C17Prop {
                 l.src = gen::gen_src_faults_upto(rng, len, 5, &[SrcFault::WouldBlock, SrcFault::Other(0)]);
             }
             _ => {}
+        }
+        if !l.src.is_empty() {
+            let marks = gen::marks_of(&l.segs);
+            gen::bias_src(rng, &mut l.src, &marks);
         }
         if fe.is_reader() {
             let k = *rng.pick(&[CallKind::Next, CallKind::Next, CallKind::Read, CallKind::NextNb, CallKind::ReadNb]);
